@@ -1153,6 +1153,18 @@ fn oracle_c09(_case: &Case, h: &Hist, ctx: &mut Ctx, out: &mut CaseOutcome, case
             }
         }
     }
+    // "any output or temp file that is stale is brought up to date": against a fresh
+    // one-file-at-a-time build of the current sources
+    let (a2, req2, rs, res) = rseq_now(ctx, &tn.before, &tn.cfg);
+    if res.is_ok() && rs.all_ok(&req2) {
+        for i in &req2 {
+            if let Some(m) = compare_generated(&a2, *i, &tn.after, &rs) {
+                out.violate("C09", "stale-file-not-brought-up-to-date", format!("after --needed: {m}"));
+                break;
+            }
+        }
+        ctx.stats.count("c09.needed_result_checked_against_fresh_reference");
+    }
     ctx.stats.add("c09.files_kept_untouched", n_kept);
     ctx.stats.add("c09.files_brought_up_to_date", n_updated);
     if n_kept > 0 && n_updated > 0 {
